@@ -20,9 +20,9 @@ func init() {
 		Title: "String and math functions match their definitions for all arguments",
 		Explanation: "Decided: R15-bytes — 'results are byte-exact for all 256 byte values': no function of the string library (stringlib.go) calls a rune-aware API on a Lua string (strings.ToUpper/ToLower/Title/Map/EqualFold/Fields/TrimSpace…, package unicode, package utf8, range over a string, []rune / string(rune) conversions), and the c verb of a number does not reach package fmt (Go's %c writes the UTF-8 encoding of the code point, C's writes one byte); " +
 			"R15-mathmap — each math library entry named after a libm function calls exactly that math.* function with CheckNumber(1)[, CheckNumber(2)] in order and pushes its result(s) in order; deg/rad use the 180/pi factors; max/min compare in the right direction; math.mod and the % operator share luaModulo; R14-readonly shared ('a string is never modified in place'). " +
-			"NOT decided: index clamping in sub/byte/find/match, format rendering of flags/width/precision, random's range — arithmetic on arguments.",
+			"R15-flags — defaultFormat, which rebuilds each string.format directive for Go's fmt, probes fmt.State for all five printf flags (+ - # 0 and blank). NOT decided: index clamping in sub/byte/find/match, format rendering of flags/width/precision, random's range — arithmetic on arguments.",
 		Trusted: []string{"Go's math package returns the IEEE result of each function"},
-		Rules:   []func(*Ctx){ruleBytes, ruleMathMap, ruleReadonly},
+		Rules:   []func(*Ctx){ruleBytes, ruleMathMap, ruleReadonly, ruleFormatFlags},
 	})
 }
 
@@ -456,4 +456,86 @@ func negateStrict(op token.Token) token.Token {
 		return token.LSS
 	}
 	return token.GTR
+}
+
+
+// ruleFormatFlags: string.format hands each directive to fmt, whose Formatter callback rebuilds the
+// directive from fmt.State in defaultFormat. A flag the rebuild does not probe is silently dropped
+// ("% d" loses its blank). The probed characters are a counted range, the runes of a constant string,
+// or constants; all five printf flags must be among them.
+func ruleFormatFlags(c *Ctx) {
+	const R = "R15-flags"
+	c.floor(R, 1)
+	p := c.P
+	fn := c.need(R, "lua", "defaultFormat")
+	if fn == nil {
+		return
+	}
+	g := p.G(fn)
+	probed := func(ch int64) bool { return false }
+	n := 0
+	var site ssa.Instruction = fn.Blocks[0].Instrs[0]
+	allInstrs(fn, func(in ssa.Instruction) {
+		call, ok := in.(*ssa.Call)
+		if !ok || !call.Call.IsInvoke() || call.Call.Method.Name() != "Flag" || len(call.Call.Args) != 1 {
+			return
+		}
+		n++
+		site = in
+		arg := stripConv(call.Call.Args[0])
+		prev := probed
+		if k, ok := constInt(arg); ok {
+			probed = func(ch int64) bool { return ch == k || prev(ch) }
+			return
+		}
+		// rune of a constant string being ranged over
+		if ex, ok := arg.(*ssa.Extract); ok {
+			if nx, ok := ex.Tuple.(*ssa.Next); ok {
+				if rg, ok := nx.Iter.(*ssa.Range); ok {
+					if str, ok := constStr(rg.X); ok {
+						probed = func(ch int64) bool { return strings.ContainsRune(str, rune(ch)) || prev(ch) }
+						return
+					}
+				}
+			}
+		}
+		// counted range lo..hi-1
+		if ph, ok := arg.(*ssa.Phi); ok {
+			for _, li := range g.loops() {
+				if li.Header != ph.Block() {
+					continue
+				}
+				lo, hi, okLo, okHi := int64(0), int64(0), false, false
+				for i, e := range ph.Edges {
+					if !li.Body[ph.Block().Preds[i]] {
+						lo, okLo = constInt(e)
+					}
+				}
+				for b := range li.Body {
+					if iff, ok := b.Instrs[len(b.Instrs)-1].(*ssa.If); ok {
+						if cmp, ok := iff.Cond.(*ssa.BinOp); ok && stripConv(cmp.X) == ssa.Value(ph) {
+							if k, ok := constInt(cmp.Y); ok {
+								switch cmp.Op {
+								case token.LSS:
+									hi, okHi = k, true
+								case token.LEQ:
+									hi, okHi = k+1, true
+								}
+							}
+						}
+					}
+				}
+				if s, _ := g.induction(ph, li); s > 0 && okLo && okHi {
+					probed = func(ch int64) bool { return (ch >= lo && ch < hi) || prev(ch) }
+				}
+			}
+		}
+	})
+	var missing []string
+	for _, ch := range "+-# 0" {
+		if !probed(int64(ch)) {
+			missing = append(missing, fmt.Sprintf("%q", ch))
+		}
+	}
+	c.check(n > 0 && len(missing) == 0, R, "defaultFormat:probes-all-printf-flags", p.ipos(site), "every printf flag (+ - # 0 and blank) is probed and forwarded", fmt.Sprintf("defaultFormat does not probe fmt.State for the flag(s) %s: string.format silently drops them (\"%% d\" loses its blank)", strings.Join(missing, " ")))
 }
